@@ -1,7 +1,7 @@
 // Conformance driver for the FreeRTOS wrappers (extension X14):
 // etl::experimental::freertos::queue<T, Size> and etl::experimental::freertos::stream_buffer.
 //   rtos_driver replay <queue|stream> <scripts.ndjson>   replays the transitions exported by spec/Rtos.tla
-//   rtos_driver sweep  <queue|stream>                    seeded random sessions: capacities 7 and 16, 400 calls each
+//   rtos_driver sweep  <queue|stream> [rounds=2]         seeded random sessions: capacities 7 and 16, 400 calls each
 // Builds:
 //   (default)      the etl wrappers over the harness' executable kernel double (rtos_fake_kernel.hpp)     inst "etl"
 //   -DVH_STD       the same calls through a reference wrapper written here directly on the kernel double:
@@ -197,6 +197,7 @@ std::unique_ptr<IQueue> make_queue(long cap, long isz)
         case 1: return std::make_unique<QImpl<T, 1>>();
         case 2: return std::make_unique<QImpl<T, 2>>();
         case 3: return std::make_unique<QImpl<T, 3>>();
+        case 4: return std::make_unique<QImpl<T, 4>>();
         case 7: return std::make_unique<QImpl<T, 7>>();
         case 16: return std::make_unique<QImpl<T, 16>>();
         default: return nullptr;
@@ -372,14 +373,14 @@ int replay(std::string const& kind, std::string const& path)
 
 // seeded random sessions on capacities the model checker does not enumerate; the trace spec follows the model
 // state from the construction on (events carry no plan), a {"op":"session"} event opens every session
-void sweep(std::string const& kind)
+void sweep(std::string const& kind, int rounds)
 {
     vh::Rng rng(vh::env_seed() * 2 + (kind == "queue" ? 0 : 1));
     Session s;
     s.kind                  = kind;
     long const ticksOf[]    = {0, 5, 1000};
     for (long cap : {7L, 16L}) {
-        for (int round = 0; round < 2; ++round) {
+        for (int round = 0; round < rounds; ++round) {
             s.begin();
             json mark;
             mark["op"]   = "session";
@@ -388,8 +389,8 @@ void sweep(std::string const& kind)
             json c;
             c["op"]   = "ctor";
             c["cap"]  = cap;
-            c["isz"]  = (cap == 7) == (round == 0) ? 1 : 12;
-            c["trig"] = round == 0 ? 1 : cap;
+            c["isz"]  = (cap == 7) == (round % 2 == 0) ? 1 : 12;
+            c["trig"] = round % 2 == 0 ? 1 : cap;
             if (kind == "stream") { c["isz"] = 0; }
             s.call(c, false);
             for (int step = 0; step < 400; ++step) {
@@ -444,11 +445,11 @@ int main(int argc, char** argv)
     std::string const kind = argc > 2 ? argv[2] : "";
     if (kind == "queue" || kind == "stream") {
         if (mode == "replay" && argc == 4) { return replay(kind, argv[3]); }
-        if (mode == "sweep" && argc == 3) {
-            sweep(kind);
+        if (mode == "sweep" && (argc == 3 || argc == 4)) {
+            sweep(kind, argc == 4 ? std::atoi(argv[3]) : 2);
             return 0;
         }
     }
-    std::fprintf(stderr, "usage: rtos_driver replay <queue|stream> <scripts> | sweep <queue|stream>\n");
+    std::fprintf(stderr, "usage: rtos_driver replay <queue|stream> <scripts> | sweep <queue|stream> [rounds]\n");
     return 2;
 }
